@@ -97,8 +97,7 @@ static void build_menus() {
     for (auto& r : r3) for (long b = 0; b <= 1; ++b) for (long m = 0; m <= 3; m += (b ? 2 : 1)) CGM.push_back(CG(LE({r[0], r[1], r[2]}, -b), m));
   }
   CGM_CORE = { CG(LE({1, 0, 0}, 0), 2), CG(LE({1, 0, 0}, -1), 2), CG(LE({0, 1, 0}, 0), 3), CG(LE({1, 1, 0}, 0), 2), CG(LE({1, -1, 0}, -1), 0),
-               CG(LE({2, 1, 0}, 0), 3), CG(LE({2, 0, 0}, -1), 2), CG(LE({1, 0, 0}, -1), 0), CG(LE({0, 1, 0}, 0), 1), CG(LE({0, 0, 0}, 1), 2),
-               CG(LE({3, 0, 0}, -1), 0), CG(LE({-1, 0, 0}, -1), 3) };
+               CG(LE({2, 1, 0}, 0), 3), CG(LE({2, 0, 0}, -1), 2), CG(LE({1, 0, 0}, -1), 0), CG(LE({0, 0, 0}, 1), 2) };
   GGM = { GG('p', {0, 0, 0}), GG('p', {1, 0, 0}, 2), GG('p', {1, 1, 0}, 3), GG('p', {2, 1, 0}), GG('p', {1, -1, 0}, 2), GG('p', {-1, 2, 0}, 3),
           GG('q', {1, 0, 0}), GG('q', {0, 2, 0}), GG('q', {1, 1, 0}, 2), GG('q', {3, -1, 0}), GG('q', {0, 0, 0}),
           GG('l', {1, 0, 0}), GG('l', {1, 1, 0}) };
@@ -237,6 +236,8 @@ struct Op {
   Op() : binary(false), builder(false), core(false), observer(false) {}
 };
 static std::vector<Op> OPS;
+static std::string trigger_for_op(const Op& op, const Grid& before, const Grid* operand, int cls);
+static std::string site_of(const std::string& name);
 static bool cempty(int cls) { return CL[cls].empty; }
 static const char* relsym_name(int r) { static const char* n[] = {"<", "<=", "==", ">=", ">"}; return n[r]; }
 static PPL::Relation_Symbol relsym_ppl(int r) {
@@ -270,7 +271,7 @@ static void build_ops() {
   // ---- builders: add_grid_generator
   for (size_t i = 0; i < GGM.size(); ++i) {
     GG g = GGM[i];
-    Op o; o.name = "add_grid_generator(" + g.str() + ")"; o.builder = true; o.core = true;
+    Op o; o.name = "add_grid_generator(" + g.str() + ")"; o.builder = true; o.core = (i == 0 || i == 1 || i == 4 || i == 5 || i == 6 || i == 8 || i == 11);
     o.ok = [g](const Ctx& x) {
       if (!g.fits(x.dim)) return false;
       if (g.t != 'p' && cempty(x.cls)) return false;            // throws: belongs to C14
@@ -295,7 +296,7 @@ static void build_ops() {
   };
   for (size_t i = 0; i < obs.size(); ++i) {
     Obs ob = obs[i];
-    Op o; o.name = ob.n; o.builder = true; o.core = true; o.observer = true;
+    Op o; o.name = ob.n; o.builder = true; o.core = (i < 5 || i == 6); o.observer = true;
     o.ok = [](const Ctx&) { return true; };
     o.apply = [ob](Grid& p, const Grid*) { ob.f(p); return std::string(); };
     o.refv = [](const RGrid& v, const RGrid*) { return v; };
@@ -691,8 +692,11 @@ static void check_value(Grid& r, int want, const std::string& site, const std::s
     }
   }
   if (!okk) {
-    std::string t2 = (trigger == "none" && line_np) ? "result_stores_a_line_with_non_coprime_coefficients" : trigger;
-    if (violcap().admit(site + "|OK2|" + t2)) report_violation(site, "invariant:OK()-after-observation", t2, input_json, "OK() false", "OK() true");
+    // Grid::simplify(generators) may leave a line with non-coprime coefficients; the system then changes under a second
+    // reduction and OK() rejects it although the denoted grid is right: attributed to simplify, whatever operation came first
+    line_np = line_np || stored_line_not_primitive(r) || stored_line_not_primitive(*second);
+    if (line_np) { if (violcap().admit("simplify|OK2")) report_violation("Grid::simplify(Grid_Generator_System&)", "invariant:OK()-after-observation", "generator_system_stores_a_line_with_non_coprime_coefficients", input_json, "OK() false", "OK() true"); }
+    else if (violcap().admit(site + "|OK2|" + trigger)) report_violation(site, "invariant:OK()-after-observation", trigger, input_json, "OK() false", "OK() true");
   }
 }
 
@@ -718,7 +722,7 @@ static int add_state(Grid* g, int dim, int cls, int parent, int op, int depth) {
   // the clone used everywhere below must be faithful
   { GP c(clone(*g)); if (dump_of(*c) != key) { sink().line(J().str("t", "error").str("msg", "clone is not faithful (dump differs)").done()); _exit(4); } }
   if (!g->OK() && violcap().admit("stateOK")) report_violation("Grid::" + (op >= 0 ? OPS[op].name.substr(0, OPS[op].name.find('(')) : std::string("Grid")), "invariant:OK()", "none", J().raw("history", hist_json(id)).done(), "OK() false", "OK() true");
-  check_stored(*g, cls, "Grid::" + (op >= 0 ? OPS[op].name.substr(0, OPS[op].name.find('(')) : std::string("Grid")), "value:stored-description!=model", "none", J().raw("history", hist_json(id)).str("signature", s.sig).done());
+  check_stored(*g, cls, op >= 0 ? site_of(OPS[op].name) : std::string("Grid::Grid(dim,kind)"), "value:stored-description!=model", (op >= 0 && parent >= 0) ? trigger_for_op(OPS[op], *ST[parent].g, 0, ST[parent].cls) : std::string("none"), J().raw("history", hist_json(id)).str("signature", s.sig).done());
   return id;
 }
 
@@ -1039,8 +1043,16 @@ static std::string trigger_for_query(const Query& q, const Grid& before, int cls
   }
   return "none";
 }
+// relation_with(non-equality constraint) rewrites further points of the stored generator system in place
+static bool several_points_and_divisor_ne_1(const Grid& before) {
+  if (!before.status.test_g_up_to_date()) return false;
+  int npts = 0; for (PPL::Grid_Generator_System::const_iterator i = before.gen_sys.begin(), e = before.gen_sys.end(); i != e; ++i) if (i->is_point()) ++npts;
+  return npts > 1 && gens_divisor_ne_1(before.gen_sys);
+}
+static bool is_inequality_relation(const std::string& n) { return name_is(n, "relation_with(") && (n.find(">=0)") != std::string::npos || n.find(">0)") != std::string::npos); }
 static std::string trigger_for_op(const Op& op, const Grid& before, const Grid* operand, int cls) {
   const std::string& n = op.name;
+  if (is_inequality_relation(n)) return several_points_and_divisor_ne_1(before) ? "inequality_and_several_points_stored_with_divisor_ne_1" : "none";
   if (n == "Grid(copy)") return (before.status.test_empty() && before.space_dim > 0) ? "source_marked_empty" : "none";
   if (n == "difference_assign") return updated_gens_divisor_ne_1(before, false) ? "receiver_generator_divisor_ne_1" : "none";
   if (n == "upper_bound_assign_if_exact") return (updated_gens_divisor_ne_1(before, false) || (operand && updated_gens_divisor_ne_1(*operand, false))) ? "some_generator_divisor_ne_1" : "none";
@@ -1161,7 +1173,7 @@ static void run_queries_on(int s, long long& sub, long long sub_start) {
       // observing must not change the value, nor the value of the const operand
       if ((my & 3) == 0 || ARGS.thorough()) {
         RefGuard guard;
-        check_stored(*p, st.cls, site_of(q.name), "value:changed-by-query", "none", input_json(s, q.name, o));
+        check_stored(*p, st.cls, site_of(q.name), "value:changed-by-query", (is_inequality_relation(q.name) && several_points_and_divisor_ne_1(*st.g)) ? "inequality_and_several_points_stored_with_divisor_ne_1" : "none", input_json(s, q.name, o));
         if (!p->OK() && violcap().admit("qOK|" + q.name)) report_violation(site_of(q.name), "invariant:OK()-after-query", "none", input_json(s, q.name, o), "OK() false", "OK() true");
         if (oc) check_stored(*oc, ST[o].cls, site_of(q.name), "const-arg-changed", "none", input_json(s, q.name, o));
       }
